@@ -993,6 +993,10 @@ func corpus(tier string, tabs *schema.Tables, rng *rand.Rand) []source {
 			out = append(out, source{"cover:" + progs[i].ID, schema.RenderProg(tabs, &progs[i])})
 			// the same body twice in one function: two users with identical operand lists, bundles,
 			// incoming lists, cases (for the frame condition between instructions)
+			// (quick tier: the repetition / bundle configurations only; thorough: every program)
+			if tier != "thorough" && !strings.Contains(progs[i].ID, "/config/") {
+				continue
+			}
 			if d := schema.DoubleProg(&progs[i]); d != nil {
 				out = append(out, source{"cover2:" + progs[i].ID, schema.RenderProg(tabs, d)})
 			}
